@@ -305,9 +305,11 @@ package linkedhashset
 //@   modifies nothing
 //@   ensures [C14 C16 C17 C18] fresh(result) && Inv(result) && fresh(result.table) && fresh(result.ordering) && N(result) <= N(set)
 //@   ensures [C14] all: forall j :: 0 <= j && j < N(set) ==> Mem(result, f(j, K(set)[j]))
+//@   ensures [C14] only: forall x like K(set)[0] :: Mem(result, x) ==> (exists j :: 0 <= j && j < N(set) && x == f(j, K(set)[j]))
 //@   loop 1:
 //@     invariant ItInv(iterator) && iterator.iterator.list == set.ordering && fresh(iterator) && fresh(newSet) && Inv(newSet) && fresh(newSet.table) && fresh(newSet.ordering) && newSet != set && N(newSet) <= min(iterator.iterator.index + 1, N(set))
 //@     invariant forall j :: 0 <= j && j <= iterator.iterator.index && j < N(set) ==> Mem(newSet, f(j, K(set)[j]))
+//@     invariant forall x like K(set)[0] :: Mem(newSet, x) ==> (exists j :: 0 <= j && j <= iterator.iterator.index && j < N(set) && x == f(j, K(set)[j]))
 //@     decreases N(set) - iterator.iterator.index
 
 //@ -- String: starts with the container's name; reads only (C15, C18)
